@@ -12,6 +12,9 @@ open PtModel PtModel.Xray PtNum Driver
 structure St where
   raw : Std.HashMap Nat (List (Float × Float × Float)) := {}
   tables : Std.HashMap Nat (List (Node Float)) := {}
+  /-- `f1Nodes t`, `f2Nodes t` of each loaded table, computed once (same lists that
+      `scatteringFactors t e` maps out on every call) -/
+  nodes : Std.HashMap Nat (List (Float × Option Float) × List (Float × Option Float)) := {}
   mass : Std.HashMap (Nat × Nat) Float := {}
   nd : Std.HashMap Nat Float := {}
   me : Float := 0
@@ -44,8 +47,11 @@ def energyOf (kind : String) (v : Float) : Option Float :=
   | "w" => some (xrayEnergy v)
   | _ => none
 
-def St.sf (st : St) (e : Float) (a : Atom) : Option (Option Float × Option Float) :=
-  (st.tables.get? a.z).map fun t => scatteringFactors t e
+/-- `scatteringFactors t e` with the node lists cached at load time -/
+def St.sfz (st : St) (z : Nat) (e : Float) : Option (Option Float × Option Float) :=
+  (st.nodes.get? z).map fun n => (interpNaN n.1 e, interpNaN n.2 e)
+
+def St.sf (st : St) (e : Float) (a : Atom) : Option (Option Float × Option Float) := st.sfz a.z e
 
 def symbolOf (z : Nat) : Option String :=
   (PtGen.elementBase.find? (fun r => r.1 = z)).map fun r => r.2.2.1
@@ -81,7 +87,8 @@ def handle (st : St) : Toks → IO St
       let inc := strictlyIncreasing t
       let rawInc := strictlyIncreasing (loadTableUnsorted rows)
       reply s!"ok {t.length} {if inc then 1 else 0} {if rawInc then 1 else 0}"
-      pure { st with tables := st.tables.insert z t, raw := st.raw.erase z }
+      pure { st with tables := st.tables.insert z t, nodes := st.nodes.insert z (f1Nodes t, f2Nodes t),
+                     raw := st.raw.erase z }
     | none => do reply "ERR bad-op"; pure st
   | ["mass", z, a, m] =>
     match natTok z, natTok a, readF m with
@@ -98,8 +105,8 @@ def handle (st : St) : Toks → IO St
   | ["sf", z, kind, v] => do
     match natTok z, readF v >>= energyOf kind with
     | some z, some e =>
-      match st.tables.get? z with
-      | some t => let (f1, f2) := scatteringFactors t e; reply s!"{showO f1} {showO f2}"
+      match st.sfz z e with
+      | some (f1, f2) => reply s!"{showO f1} {showO f2}"
       | none => reply "notable"
     | _, _ => reply "ERR bad-op"
     pure st
@@ -126,10 +133,10 @@ def handle (st : St) : Toks → IO St
   | ["esld", z, kind, v] => do
     match natTok z, readF v >>= energyOf kind with
     | some z, some e =>
-      match st.tables.get? z with
+      match st.sfz z e with
       | none => reply "none"
-      | some t =>
-        match elementSld (scatteringFactors t e) (st.nd.get? z) with
+      | some sf =>
+        match elementSld sf (st.nd.get? z) with
         | some (r, i) => reply s!"ok {showO r} {showO i}"
         | none => reply "none"
     | _, _ => reply "ERR bad-op"
